@@ -322,6 +322,13 @@ pub fn run(rep: &Report) {
     // every access kind (LEA excepted: it touches no memory) with the operand aimed at the last bytes of memory
     crate::insplane::edge_plane(rep, if t { 600_000 } else { 12_000 }, rep.seed ^ 0xE4, false, "C04 operand resolution at the end of memory", "ea", &|rng| {
         let k = rng.below(KINDS.len() - 1);
+        if rng.chance(1, 5) {
+            // every production that takes a memory operand resolves it on its own (there are dozens of hand-copied
+            // word reads / writes): arithmetic, logic, unary, shifts, every MOV form incl. segment registers, XCHG,
+            // PUSH / POP of memory
+            let class = rng.below(7);
+            return crate::c09::rand_ins(rng, class);
+        }
         if rng.chance(1, 6) {
             // exchanges resolve their memory operand like any other instruction
             let w = if rng.chance(1, 2) { W::B } else { W::W };
